@@ -699,7 +699,8 @@ def mul_dekker(
         yh, yl = split_veltkamp(ctx, y, C=C, scale=scale, dtype=dtype)
         xyh, xyl = mul_dw(ctx, x, y, xh, xl, yh, yl)
 
-    if fix_overflow:
+    if fix_overflow and not assume_fma:
+        # (with assume_fma there is no split: nothing to repair)
         largest = get_largest(ctx, x)
         overflow = abs(xh * yh) > largest
         xyh = ctx.select(overflow, x * y, xyh)
